@@ -139,6 +139,24 @@ EXTRA = [
     "int x;\n#pragma   \t",
     "void f(void){ int *p; (void)sizeof (int) ; p = (int *)0; (p)[0]; ((void (*)(void))p)(); }",
     "int f(a, b) int a; register int b; { return a + b; } int g() { return 1; } int h(void);",
+    # round 6: valid shapes that are almost never written
+    "int g(int); void f(int n){ again: int k = g(n); if (k) goto again; last: ; }",
+    "inline _Noreturn void die(int); _Noreturn inline static void die2(int c) { for (;;) ; } void h(inline _Noreturn void (*cb)(void));",
+    "_Atomic(int *) (*rows)[3]; _Atomic(char *) (*get)(void); unsigned long z = sizeof(_Atomic(int *) (*)[2]); void f(_Atomic(int *) (*cb)(int));",
+    "void f(int x){ switch (x) { int tmp; case 1: tmp = 1; break; default: tmp = 2; } switch (x) { again: case 0: x++; if (x < 3) goto again; } }",
+    "void f(int x){ switch (x) {\n#pragma before first case\n case 1: x = 1; } switch (x) { x = 9; } }",
+    "int cube[2][3][4]; int (*pc)[2][3][4]; int (*tab[2][3][4])(int); unsigned long z = sizeof(int (*)[5][6][7]); int f4(int a[][2][3][4]);",
+    "typedef int T; typedef int U; struct S { int T; struct { int m; } U[2]; }; unsigned long z = offsetof(struct S, T) + offsetof(struct S, U[1].m);",
+    "int f(a, b) register int a; char *b; { return a; }",
+    "typedef struct list list; struct list { list *next; }; void f(void){ struct list *list = 0, **pp; for (struct list *list = 0, *e; ; ) break; }",
+    "typedef int T; _Alignas(T) char c; struct S { _Alignas(T) char d; _Alignas(T *) char e; }; void f(void){ _Alignas(T[2]) char g; }",
+    "char *s = \"a\tb\"; char c = '\t';\n#pragma x\ty\nint z;",
+    "void f(void){ for (;;) ; do L: ; while (0); if (1) if (2) ; else if (3) ; else ; }",
+    "typedef int F(int); F ff; F *pf = ff; int (*fr(int a))(int) { return pf; } typedef int (T2); int (paren) = 1, ((paren2));",
+    "struct S { _Static_assert(1, \"only\"); }; struct E {}; int e[] = {}; struct Q { int a[2]; struct { int b; } n; } q = { .a[1] = 2, .n.b = 3, .a = { [0] = 1 } };",
+    "char *long_s = \"" + "a" * 5000 + "\";",
+    "char *long_run = " + " ".join(['\"' + "b" * 300 + '\"'] * 20) + ";",
+    "#pragma " + "p" * 5000 + "\nint after_long_pragma;",
     # unnamed parameters whose first specifier is a tag specifier / qualifier / typedef name
     "struct S; void f(struct S, enum E *, union U [4]);",
     "typedef int T; void g(const struct S *, T, T *, volatile T [2], struct { int m; } *);",
